@@ -34,6 +34,7 @@ class Recorder:
         self.versions = {}  # name -> {digest: version id}
         self.enabled = True
         self.max_events = 200000
+        self.last_digest = ""
 
     def watch_module(self, name, module):
         from .digests import module_digest
@@ -45,6 +46,7 @@ class Recorder:
 
     def snapshot(self):
         out = {}
+        hh = hashlib.sha1()
         for name, fn in self.watch.items():
             try:
                 d = fn()
@@ -54,6 +56,8 @@ class Recorder:
             if d not in ids:
                 ids[d] = len(ids)
             out[name] = ids[d]
+            hh.update(name.encode() + d.encode())
+        self.last_digest = hh.hexdigest()[:12]  # content digest of all watched components (for determinism)
         return out
 
     def emit(self, ev, **fields):
@@ -65,6 +69,7 @@ class Recorder:
         rec.update(fields)
         if self.watch:
             rec["ver"] = self.snapshot()
+            rec["vd"] = self.last_digest
         self.events.append(rec)
 
 
